@@ -4,9 +4,17 @@
 package c16
 
 import (
+	"os"
 	"testing"
 
 	"verifharness/vk"
 )
 
-func TestMain(m *testing.M) { vk.Main(m, "C16") }
+func TestMain(m *testing.M) {
+	// direct `go test` / `go test -fuzz` runs (without the driver) also honour
+	// the recorded findings, so that they search behind them
+	if os.Getenv("VK_KNOWN") == "" {
+		os.Setenv("VK_KNOWN", "/verif/known_findings.jsonl")
+	}
+	vk.Main(m, "C16")
+}
